@@ -369,6 +369,13 @@ int32_t jls_raw_rd_header(struct jls_raw_s * self, struct jls_chunk_header_s * h
             invalidate_current_chunk(self);
             return JLS_ERROR_MESSAGE_INTEGRITY;
         }
+        // Chunks are only ever appended: a list leads forward through the file, and back.
+        if ((h->item_next && (h->item_next <= (uint64_t) self->offset)) || (h->item_prev >= (uint64_t) self->offset)) {
+            JLS_LOGW("chunk header offset=%" PRIi64 " links do not lead forward/backward: next=%" PRIu64 " prev=%" PRIu64,
+                     self->offset, h->item_next, h->item_prev);
+            invalidate_current_chunk(self);
+            return JLS_ERROR_MESSAGE_INTEGRITY;
+        }
     }
     if (hdr) {
         *hdr = self->hdr;
